@@ -38,10 +38,10 @@ func rulesC03(w *World, r *Report) {
 	w.ruleLenReader(r, "C03.R2 reader coverage", "binary")
 	w.ruleLookAhead(r, "C03.R3 no dropped look-ahead")
 	w.ruleHeaderSiblings(r, "C03.R4 typed headers read the type through the type reader")
-	w.ruleLiteralTypeNumbered(r, "C03.R4 typed headers read the type through the type reader")
+	w.ruleLiteralTypeNumberedPX(r, "C03.R4 typed headers read the type through the type reader")
 	w.ruleChunkBuffers(r, "C03.R5 chunk length governs the read size")
 	w.ruleLoopExits(r, "C03.R6 variable-length lists end on the terminator", true)
-	w.ruleHolderChange(r, "C03.R6 variable-length lists keep every element")
+	w.ruleHolderChangePX(r, "C03.R6 variable-length lists keep every element")
 	r.note("spec table digest %s", specDigest())
 	include(w, r, "C04")
 	include(w, r, "C05")
@@ -321,123 +321,6 @@ func (w *World) ruleHeaderSiblings(r *Report, rule string) {
 		}
 	}
 	r.add(rule, "(*Decoder).readMap · 'M' arm first read", pos, ok, fact)
-}
-
-// ruleLiteralTypeNumbered: in the type reader every literal type string is
-// appended to the per-stream type list on every path (each literal takes the
-// next number, also a repeated one: later back-references count them all).
-func (w *World) ruleLiteralTypeNumbered(r *Report, rule string) {
-	rt := w.fn("(*Decoder).readType")
-	if rt == nil {
-		r.undecided(rule, "(*Decoder).readType", "-", "anchor not found")
-		return
-	}
-	_, st := w.structOf("Decoder")
-	tl := -1
-	for i := 0; st != nil && i < st.NumFields(); i++ {
-		if typeStr(st.Field(i).Type()) == "[]string" {
-			tl = i
-		}
-	}
-	if tl < 0 {
-		r.undecided(rule, "Decoder type list", "-", "no []string field in Decoder")
-		return
-	}
-	fieldName := "Decoder." + w.fieldName("Decoder", tl)
-	appendsIn := func(b *ssa.BasicBlock) bool {
-		for _, in := range b.Instrs {
-			stI, ok := in.(*ssa.Store)
-			if !ok {
-				continue
-			}
-			if fa, ok := stI.Addr.(*ssa.FieldAddr); ok && w.fieldNameOfAddr(fa) == fieldName {
-				if c, ok := stI.Val.(*ssa.Call); ok {
-					if bi, ok := c.Call.Value.(*ssa.Builtin); ok && bi.Name() == "append" {
-						return true
-					}
-				}
-			}
-		}
-		return false
-	}
-	// A: functions that append on every path to a return
-	A := map[*ssa.Function]bool{}
-	for changed := true; changed; {
-		changed = false
-		for _, fn := range w.SrcFuncs() {
-			if A[fn] || fn == rt {
-				continue
-			}
-			ev := map[*ssa.BasicBlock]bool{}
-			for _, b := range fn.Blocks {
-				if appendsIn(b) {
-					ev[b] = true
-				}
-				for _, in := range b.Instrs {
-					if c, ok := in.(*ssa.Call); ok && c.Call.StaticCallee() != nil && A[c.Call.StaticCallee()] {
-						ev[b] = true
-					}
-				}
-			}
-			if len(ev) == 0 {
-				continue
-			}
-			ok := true
-			seen := map[*ssa.BasicBlock]bool{}
-			var walk func(b *ssa.BasicBlock)
-			walk = func(b *ssa.BasicBlock) {
-				if seen[b] || ev[b] {
-					return
-				}
-				seen[b] = true
-				if _, isRet := b.Instrs[len(b.Instrs)-1].(*ssa.Return); isRet {
-					ok = false
-					return
-				}
-				for _, s2 := range b.Succs {
-					walk(s2)
-				}
-			}
-			walk(fn.Blocks[0])
-			if ok {
-				A[fn] = true
-				changed = true
-			}
-		}
-	}
-	tag := w.tagSymbolOf(rt)
-	f := w.flow(rt)
-	strTags := specTags("string", "")
-	idx := errIndex(rt.Signature)
-	n := 0
-	for _, b := range rt.Blocks {
-		ret, ok := b.Instrs[len(b.Instrs)-1].(*ssa.Return)
-		if !ok || !isNilConst(ret.Results[idx]) || tag == nil {
-			continue
-		}
-		S, _ := f.ValueAt(tag, b)
-		if S == nil || !S.SubsetOf(strTags) {
-			continue
-		}
-		n++
-		good := false
-		for _, d := range rt.Blocks {
-			if !d.Dominates(b) {
-				continue
-			}
-			if appendsIn(d) {
-				good = true
-			}
-			for _, in := range d.Instrs {
-				if c, ok := in.(*ssa.Call); ok && c.Call.StaticCallee() != nil && A[c.Call.StaticCallee()] {
-					good = true
-				}
-			}
-		}
-		r.add(rule, fmt.Sprintf("(*Decoder).readType · literal return #%d numbers the type", n), w.instrPos(ret), good,
-			map[bool]string{true: "the literal is appended to the type list on every path to this return", false: "a literal type can be returned without being appended to the type list: every later type back-reference is shifted"}[good])
-	}
-	r.floor(rule+" (literal returns of readType)", n, 1)
 }
 
 // ruleChunkBuffers.
